@@ -87,7 +87,12 @@ func opGenerate(j Job) Res {
 	}
 	exp, _ := j["experimental"].(bool)
 	var stderr bytes.Buffer
-	out, gerr := cmd.Generate(cmd.Env{ExperimentalFeatures: exp}, dir, "", &stderr)
+	// "config_dir": the configuration file is not at the top of the tree (query files may then lie outside its directory)
+	run := dir
+	if cd, _ := j["config_dir"].(string); cd != "" {
+		run = filepath.Join(dir, cd)
+	}
+	out, gerr := cmd.Generate(cmd.Env{ExperimentalFeatures: exp}, run, "", &stderr)
 	res := Res{"stderr": strings.ReplaceAll(stderr.String(), dir+"/", "")}
 	if gerr != nil {
 		res["ok"] = false
